@@ -95,7 +95,7 @@ def program(draw, tier):
     # optional dynamic children with their own timers: map_ children come and go with the keys, reduce combiners are
     # created / re-bound / retired as the tree is re-shaped, switch_ branches are replaced - a pending wake-up of a live
     # child must survive all of that, and a stopped child's requests die with it
-    dyn = draw(st.sampled_from([None, None, None, "map", "reduce", "switch"]))
+    dyn = draw(st.sampled_from([None, None, None, "map", "reduce", "switch", "tslmap"]))
     if dyn in ("map", "reduce"):
         from hgv import tsmodel as tm
         opts = {"cancel": True, "multi": True, "no_rewrite": True, "keys": draw(st.sampled_from([3, 5, 9]))}
@@ -127,6 +127,19 @@ def program(draw, tier):
             subs["C"] = {"params": ["TS[int]", "TS[int]"], "names": ["lhs", "rhs"], "out": "TS[int]", "ret": "t",
                          "stmts": [child_timer([{"arg": 0}, {"arg": 1}])]}
             stmts.append({"id": "dyn", "op": "op", "name": "reduce", "args": [{"fn": "C"}, {"ts": "dd"}], "has_out": True})
+        stmts.append({"id": "drec", "op": "node", "ins": ["dyn"], "log_inputs": False, "valid": []})
+    elif dyn == "tslmap":
+        # map_ over a dynamic list: one element ticks (or the list grows) while the child of another element waits for its alarm
+        lscript, top = [], 0
+        for t in draw(gen.time_set(start, end - 1, 1, 7)):
+            i_ = draw(st.integers(0, min(top + 1, 5)))
+            top = max(top, i_)
+            lscript.append([t, [{"k": "i", "i": i_, "op": {"k": "set", "v": t}}]])
+        stmts.append({"id": "dl", "op": "src", "schema": "TSL[TS[int],0]", "script": lscript})
+        tn = {"id": "t", "op": "node", "ins": [{"arg": 0}], "out": "TS[int]", "fn": "count", "valid": [], "log_inputs": False, "emit": "sched_now",
+              "sched": {"tick": [["s", "rel", draw(st.integers(1, 6)), draw(st.sampled_from(["a", None]))]]}, "tags": gen.TAGS} if draw(st.booleans()) else draw(timer("t", [{"arg": 0}], horizon, start))
+        subs["F"] = {"params": ["TS[int]"], "names": ["x"], "out": "TS[int]", "ret": "t", "stmts": [tn]}
+        stmts.append({"id": "dyn", "op": "op", "name": "map_", "args": [{"fn": "F"}, {"ts": "dl"}], "has_out": True})
         stmts.append({"id": "drec", "op": "node", "ins": ["dyn"], "log_inputs": False, "valid": []})
     elif dyn == "switch":
         ks = [[t, [{"k": "set", "v": draw(st.integers(0, 1))}]] for t in draw(gen.time_set(start, end - 1, 1, 5))]
